@@ -685,7 +685,7 @@ func PN(p *ssa.Parameter) string {
 		return p.Name()
 	}
 	if rn := RecvNamed(f); rn != nil && rn.Obj().Pkg() != nil {
-		if cn, ok := canonRecv[rn.Obj().Pkg().Name()+"."+rn.Obj().Name()]; ok {
+		if cn, ok := canonRecv[rn.Obj().Pkg().Name()+"."+TNm(rn.Obj())]; ok {
 			return cn
 		}
 	}
@@ -1018,7 +1018,7 @@ func FieldStoresOf(fn *ssa.Function, named *types.Named) []FieldStore {
 }
 
 // TypeName renders a type with package names (not paths).
-func TypeName(t types.Type) string { return types.TypeString(t, shortQual) }
+func TypeName(t types.Type) string { return canonTypeNames(types.TypeString(t, shortQual)) }
 
 // FuncKey renders an SSA function as a stable construct name for keys.
 func FuncKey(f *ssa.Function) string {
@@ -1262,7 +1262,7 @@ func nonNegative(v ssa.Value) bool {
 var fieldCanon = map[*types.Var]string{}
 
 func fieldTypeString(t types.Type) string {
-	return types.TypeString(t, func(p *types.Package) string { return p.Name() })
+	return canonTypeNames(types.TypeString(t, func(p *types.Package) string { return p.Name() }))
 }
 
 // FN: the canonical name of a struct field (see fieldCanon).
@@ -1294,7 +1294,7 @@ func eachNamedStruct(p *Program, f func(key string, st *types.Struct)) {
 				continue
 			}
 			if st, ok := tn.Type().Underlying().(*types.Struct); ok {
-				f(pk.Types.Name()+"."+n, st)
+				f(pk.Types.Name()+"."+TNm(tn), st)
 			}
 		}
 	}
